@@ -12,6 +12,7 @@ import random, math
 from fractions import Fraction
 from .. import common as C, gen, build
 from .. import gen_projection as G
+from .. import scipy_guard as SG
 from ..check import Prop, Op
 from ..common import F, fs, dy, pf
 
@@ -25,32 +26,77 @@ def np():
 
 
 # ---------------------------------------------------------------- building the real objects
-def build_region(r, maxiter=None):
+class Args:
+  """the constructor arguments as the caller owns them: every array / list handed to the library is kept with a
+  snapshot, so that (1) several regions can be given THE SAME object (`_share`) and (2) it can be checked afterwards
+  that the library did not write into the caller's data."""
+  def __init__(self):
+    self.shared = {}
+    self.owned = []
+
+  def make(self, values, form, share, what):
+    n_ = np()
+    if share and share in self.shared:
+      assert n_.array_equal(n_.array(self.shared[share][1], dtype=float), n_.array(values, dtype=float)), 'shared argument with different values'
+      return self.shared[share][0]
+    flat_int = all(float(v).is_integer() for row in values for v in (row if isinstance(row, list) else [row]))
+    if form == 'tuple':
+      obj = tuple(tuple(v) if isinstance(v, list) else v for v in values)
+    elif form == 'ndarray':
+      obj = n_.array(values, dtype=float)
+    elif form == 'intarray' and flat_int:
+      obj = n_.array([[int(x) for x in v] if isinstance(v, list) else int(v) for v in values])
+    else:
+      obj = [list(v) if isinstance(v, list) else v for v in values]
+    snap = obj.copy() if hasattr(obj, 'copy') and not isinstance(obj, list) else [list(v) if isinstance(v, list) else v for v in values]
+    self.owned.append((what, obj, snap))
+    if share:
+      self.shared[share] = (obj, snap)
+    return obj
+
+  def mutated(self):
+    n_ = np()
+    out = []
+    for what, obj, snap in self.owned:
+      same = n_.array_equal(n_.array(obj, dtype=float), n_.array(snap, dtype=float))
+      if not same:
+        out.append('%s: was %s, now %s' % (what, n_.array(snap).tolist(), n_.array(obj).tolist()))
+    return out
+
+
+def build_region(r, maxiter=None, args=None):
+  """the real region objects; `_form` (list / tuple / ndarray / intarray) and `_share` (a key: regions with the same key
+  receive the same object) of a description say how the caller passes the normal / the bounds table."""
   C.repo()
   from device_kit import projection as P
+  args = args if args is not None else Args()
   k = r['k']
+  form, share = r.get('_form', 'list'), r.get('_share')
   if k == 'cube':
-    return P.HyperCube([[pf(a), pf(b)] for a, b in zip(r['lo'], r['hi'])])
+    return P.HyperCube(args.make([[pf(a), pf(b)] for a, b in zip(r['lo'], r['hi'])], form, share, 'HyperCube bounds'))
   if k == 'half':
-    return P.HalfSpace([pf(x) for x in r['nrm']], pf(r['o']), pf(r['sign']))
+    return P.HalfSpace(args.make([pf(x) for x in r['nrm']], form, share, 'HalfSpace normal'), pf(r['o']), pf(r['sign']))
   if k == 'slice':
-    return P.Slice([pf(x) for x in r['nrm']], pf(r['lo']), pf(r['hi']))
+    return P.Slice(args.make([pf(x) for x in r['nrm']], form, share, 'Slice normal'), pf(r['lo']), pf(r['hi']))
   if k in ('inter', 'minter'):
-    I = P.Intersection(build_region(r['a'], maxiter), build_region(r['b'], maxiter))
+    I = P.Intersection(build_region(r['a'], maxiter, args), build_region(r['b'], maxiter, args))
     if maxiter is not None:
       I._maxiter = maxiter
     return I
   if k == 'list':
-    return P.List([build_region(x, maxiter) for x in r['rs']], r['axis'])
+    return P.List([build_region(x, maxiter, args) for x in r['rs']], r['axis'])
   raise ValueError(k)
 
 
 def py_point(case):
-  """the point as the caller would pass it: floats, or Python ints when `_int`."""
+  """the point as the caller would pass it: floats, or Python ints when `_int`; list, tuple or ndarray (`_pform`)."""
   conv = (lambda s: int(Fraction(s))) if case.get('_int') else pf
+  pform = case.get('_pform', 'list')
   if 'P' in case:
-    return np().array([[conv(x) for x in row] for row in case['P']]) if case.get('_asarray', True) else [[conv(x) for x in row] for row in case['P']]
-  return [conv(x) for x in case['p']]
+    rows = [[conv(x) for x in row] for row in case['P']]
+    return rows if pform == 'list' and not case.get('_asarray', True) else np().array(rows)
+  vals = [conv(x) for x in case['p']]
+  return tuple(vals) if pform == 'tuple' else np().array(vals) if pform == 'ndarray' else vals
 
 
 def flagged(thunk, build_thunk=None):
@@ -187,6 +233,15 @@ def sample_member(r, rng, z=None, tries=40):
   return n_.array(z) if z is not None else None
 
 
+def forms_of(r):
+  k = r['k']
+  if k in ('inter', 'minter'):
+    return '(%s, %s)' % (forms_of(r['a']), forms_of(r['b']))
+  if k == 'list':
+    return '[%s]' % ', '.join(forms_of(x) for x in r['rs'])
+  return '%s%s' % (r.get('_form', 'list'), ('#' + r['_share']) if r.get('_share') else '')
+
+
 def json_short(t):
   import json as _j
   return _j.dumps(C.__dict__.get('strip', lambda v: v)(t), default=str)[:600]
@@ -318,12 +373,18 @@ class C18(Prop):
         r['sign'] = '0'
       elif q < 0.06 and kind == 'slice':
         r['lo'], r['hi'] = fs(F(r['hi']) + 1), r['lo']
-      case.update({'r': r, 'p': G.L(p), '_int': integer and all(x.denominator == 1 for x in p), 'mode': mode})
+      G.assign_forms(rng, r)
+      case.update({'r': r, 'p': G.L(p), '_int': integer and all(x.denominator == 1 for x in p), 'mode': mode,
+                   '_pform': rng.choice(['list', 'list', 'tuple', 'ndarray'])})
     elif kind == 'inter':
       n = self.pick_n(rng, tier)
       if n >= 2 and rng.random() < 0.05:
         r, p, z = G.gen_wedge(rng, n)
         case['wedge'] = True
+      elif rng.random() < 0.1:
+        p = G.gen_point(rng, n); mode = rng.choice(G.MODES)
+        r = G.gen_hand_slab(rng, p, mode)
+        z = list(p) if mode in ('inside', 'boundary') else None
       else:
         r, p, z = G.gen_inter(rng, n)
       q = rng.random() if not case.get('wedge') else 1.0
@@ -332,7 +393,9 @@ class C18(Prop):
       elif q < 0.06:
         r['b'] = G.gen_vregion(rng, G.gen_point(rng, n + 1), 'random')   # different dimensionality
         z = None
-      case.update({'r': r, 'p': G.L(p), 'z': G.L(z) if z is not None else None, '_int': False})
+      G.assign_forms(rng, r)
+      case.update({'r': r, 'p': G.L(p), 'z': G.L(z) if z is not None else None, '_int': False,
+                   '_pform': rng.choice(['list', 'list', 'tuple', 'ndarray'])})
     elif kind == 'list':
       r, P = G.gen_list(rng, tier)
       integer = rng.random() < 0.12
@@ -346,7 +409,8 @@ class C18(Prop):
         r['rs'][-1] = G.gen_vregion(rng, G.gen_point(rng, G.vlen(r['rs'][0]) + 1), 'random')   # a region of another length
       elif q < 0.10:
         r['axis'] = 2
-      case.update({'r': r, 'P': [G.L(row) for row in P], 'shape': shape, '_int': integer})
+      G.assign_forms(rng, r)
+      case.update({'r': r, 'P': [G.L(row) for row in P], 'shape': shape, '_int': integer, '_asarray': rng.random() < 0.6})
     elif kind == 'minter':
       # two lists over the same lines (same axis, same shape): the intersection is line-wise a_k ∩ b_k
       axis = rng.choice([0, 1]); nreg = rng.randint(1, 3); l = rng.randint(1, 3)
@@ -357,6 +421,8 @@ class C18(Prop):
       P = [list(ln) for ln in lines] if axis == 0 else [[lines[c][k] for c in range(nreg)] for k in range(l)]
       if rng.random() < 0.06:
         rb['axis'] = 1 - axis
+      grp = {}
+      G.assign_forms(rng, ra, grp); G.assign_forms(rng, rb, grp)
       case.update({'r': {'k': 'minter', 'a': ra, 'b': rb}, 'P': [G.L(row) for row in P], 'shape': [len(P), len(P[0])], '_int': False,
                    'z': [G.L(z) for z in zs]})
     elif kind == 'device':
@@ -523,9 +589,13 @@ class C18(Prop):
     p_exact = [F(x) for x in case['p']]
     expect_ve = (not G.ctor_ok(r)) or len(p_exact) != G.vlen(r)
     desc = '%s region=%s point=%s' % (cls, r, case['p'])
+    args = Args()
+    if case.get('_pform') or r.get('_form') or r.get('_share'):
+      desc += ' [argument forms: point %s, %s]' % (case.get('_pform', 'list'), forms_of(r))
     try:
-      reg = build_region(r)
+      reg = build_region(r, None, args)
       pt = py_point(case)
+      pt_before = n_.array(pt, copy=True)
       x = reg.project(pt)
     except ValueError:
       if expect_ve:
@@ -554,6 +624,11 @@ class C18(Prop):
       self.bump('degenerate-side')
     out = check_vector(r, p_exact, p, x, reg, rng, z)
     out += check_is_in(r, p_exact, pt, reg)
+    if not n_.array_equal(pt_before, n_.array(pt)):
+      out.append(fail(cls, 'input-mutated', desc + ': project / is_in changed the caller\'s point'))
+    mut = args.mutated()
+    if mut:
+      out.append(fail(cls, 'ctor-arg-mutated', desc + ': the library wrote into a constructor argument owned by the caller: ' + '; '.join(mut)))
     return out
 
   def oracle_list(self, case, rng):
@@ -565,8 +640,9 @@ class C18(Prop):
     expect_ve = (not G.ctor_ok(r)) or r['axis'] not in (0, 1)
     if not expect_ve:
       expect_ve = tuple(case['shape']) != G.mshape(r) or len(set(lens)) != 1
+    args = Args()
     try:
-      reg = build_region(r)
+      reg = build_region(r, None, args)
       pt = py_point(case)
       before = n_.array(pt, copy=True)
       X = reg.project(pt)
@@ -612,6 +688,9 @@ class C18(Prop):
         got_in = None
       else:
         raise
+    mut = args.mutated()
+    if mut:
+      out.append(fail('List', 'ctor-arg-mutated', desc + ': the library wrote into a constructor argument owned by the caller: ' + '; '.join(mut)))
     if far and got_in is not None and got_in != allin:
       out.append(fail('List', 'is_in' if not case.get('_int') else 'int-dtype-truncation',
                       '%s: is_in = %s but the point %s a member' % (desc, got_in, 'is' if allin else 'is not')))
@@ -700,6 +779,11 @@ class C18(Prop):
     x2 = n_.array(dev.project(x), dtype=float).reshape(-1)
     if n_.abs(x2 - x).max() > 0:
       out.append(fail(cls, 'not-idempotent', desc + ': projecting the result again changes it'))
+    # call sequence: another input projected in between, then the same input again
+    dev.project(n_.array(keep.reshape(-1)[::-1]*2 + 1))
+    x5 = n_.array(dev.project(s_in), dtype=float).reshape(-1)
+    if n_.abs(x5 - x).max() > 0:
+      out.append(fail(cls, 'call-sequence', desc + ': the same input projects to %s after another projection was made in between' % (x5.tolist(),)))
     return out
 
   def oracle_set(self, case):
@@ -729,6 +813,13 @@ class C18(Prop):
         return [fail(cls, 'no-raise', desc + ': an input with one entry too many was accepted')]
     out = []
     X = results[forms[0]]
+    try:
+      dev.project(-2*S[::-1] + 1)
+      X5 = n_.array(dev.project(self.set_input(case, forms[0])), dtype=float)
+      if X5.shape != X.shape or n_.abs(X5 - X).max() > 0:
+        out.append(fail(cls, 'call-sequence', desc + ': the same input projects differently after another projection was made in between'))
+    except Exception as e:
+      out.append(fail(cls, 'raises', '%s: a second projection raised %s' % (desc, type(e).__name__)))
     for form in forms:
       if results[form].shape != (R, n):
         return [fail(cls, 'shape', '%s: result shape %s for %s input, device shape (%d, %d)' % (desc, results[form].shape, form, R, n))]
@@ -759,6 +850,28 @@ class C18(Prop):
         row += k
     return out[:3]
 
+  def utils_sequence(self, dk, P, x0, bounds, cons, desc):
+    """the call sequence  default -> explicit solver_options -> default  on the same problem.  Returns the LAST
+    default call's (x, o) and the failures of the sequence: the later default call must be what the first one gave
+    (what a fresh process gives), whatever options another call used in between."""
+    n_ = np()
+    x1, o1 = dk.project(P, x0, bounds, cons)
+    opts = {'maxiter': 1, 'ftol': 1e-2}
+    keep = dict(opts)
+    dk.project(P, x0, bounds, cons, opts)
+    x3, o3 = dk.project(P, x0, bounds, cons)
+    out = []
+    if opts != keep:
+      out.append(fail('utils.project', 'options-mutated', desc + ': the caller\'s solver_options dict was changed to %s' % (opts,)))
+    d = float(n_.abs(n_.array(x3, dtype=float) - n_.array(x1, dtype=float)).max())
+    st = lambda o: (getattr(o, 'status', None), getattr(o, 'nit', None))   # absent when SciPy answers an all-fixed problem itself
+    if st(o3) != st(o1) or d > 1e-9:
+      out.append(fail('utils.project', 'options-leak',
+                      '%s: a default call made after a call with solver_options=%s differs from the same default call made before it: '
+                      'status %s -> %s, iterations %s -> %s, result moved by %.3g (%s -> %s)' % (
+                        desc, keep, st(o1)[0], st(o3)[0], st(o1)[1], st(o3)[1], d, n_.array(x1).reshape(-1).tolist(), n_.array(x3).reshape(-1).tolist())))
+    return x3, o3, out
+
   def oracle_utils_tree(self, case, rng):
     """utils.project on a whole tree (sbounds, label balancing, MF, leaf cbounds / storage constraints): when SLSQP
     reports success the flow must satisfy the box and every constraint to 1e-6 (leaf cumulative bounds and aggregate
@@ -774,10 +887,15 @@ class C18(Prop):
     desc = 'utils.project on tree %s n=%d p=%s' % (json_short(t), n, case['P'])
     x0 = n_.array(dev.project(n_.zeros(dev.shape)), dtype=float).reshape(-1)   # flat, as solve.step passes it
     cons = dev.constraints
+    if not SG.safe_to_solve(dev):
+      self.bump('utils-skipped-unsafe-slsqp-shape')
+      return []
     try:
-      x, o = dk.project(P, x0, dev.bounds, cons)
+      x, o, seq = self.utils_sequence(dk, P, x0, dev.bounds, cons, desc)
     except Exception as e:
       return [fail('utils.project', 'raises', '%s: raised %s: %s' % (desc, type(e).__name__, str(e)[:100]))]
+    if seq:
+      return seq
     if not o.success:
       self.bump('utils-slsqp-failed')
       return []
@@ -838,15 +956,27 @@ class C18(Prop):
     lb = n_.array([pf(x) for x in d['lb']]); hb = n_.array([pf(x) for x in d['hb']])
     desc = 'utils.project p=%s device %s lb=%s hb=%s cbs=%s' % (case['p'], d['cls'], d['lb'], d['hb'], d['cbs'])
     x0 = dev.project(n_.zeros(dev.shape)).reshape(-1)
+    if not SG.safe_to_solve(dev):
+      self.bump('utils-skipped-unsafe-slsqp-shape')
+      return []
     try:
-      x, o = dk.project(p, x0, dev.bounds, dev.constraints)
+      x, o, seq = self.utils_sequence(dk, p, x0, dev.bounds, dev.constraints, desc)
     except Exception as e:
       return [fail('utils.project', 'raises', '%s: raised %s: %s' % (desc, type(e).__name__, str(e)[:100]))]
+    if seq:
+      return seq
     if not o.success:
       self.bump('utils-slsqp-failed')
       return []
     out = []
     x = n_.array(x, dtype=float).reshape(-1)
+    # an already feasible input is returned as it is (the projection is idempotent)
+    try:
+      x4, o4 = dk.project(x.copy(), x0, dev.bounds, dev.constraints)
+      if o4.success and n_.abs(n_.array(x4, dtype=float).reshape(-1) - x).max() > 1e-3:   # ftol 1e-9 on the SQUARED distance ~ 3e-5 in position
+        out.append(fail('utils.project', 'member-moved', '%s: projecting the feasible result %s again gives %s' % (desc, x.tolist(), n_.array(x4).reshape(-1).tolist())))
+    except Exception as e:
+      out.append(fail('utils.project', 'raises', '%s: projecting the result again raised %s' % (desc, type(e).__name__)))
     if ((x < lb - 1e-6) | (x > hb + 1e-6)).any():
       out.append(fail('utils.project', 'out-of-bounds', '%s: result %s violates the bounds' % (desc, x.tolist())))
     def feasible(y, tol):
